@@ -460,8 +460,14 @@ func Reopen(dir, how string) (ReadStore, func(), error) {
 		}
 		return st, func() {}, nil
 	default:
+		// "tar": a fresh archive of the directory; "tar-after:<old>": the members of the archive <old>
+		// followed by the directory's current files (an archive brought up to date by appending)
 		tp := dir + ".reopen.tar"
-		if err := TarDir(dir, tp); err != nil {
+		old := ""
+		if strings.HasPrefix(how, "tar-after:") {
+			old = strings.TrimPrefix(how, "tar-after:")
+		}
+		if err := TarDirAfter(old, dir, tp); err != nil {
 			return nil, nil, err
 		}
 		st, err := oci.NewFromTar(ctx, tp)
